@@ -81,7 +81,25 @@ fn main() {
         }
         i += 1;
     }
-    let code = match args[1].as_str() {
+    // A panic that escapes a check is a failure of the machinery (exit 2) unless the check
+    // had already printed a VIOLATION line, in which case the verdict stands (exit 1).
+    let code = match std::panic::catch_unwind(std::panic::AssertUnwindSafe(|| dispatch(&args, tier))) {
+        Ok(c) => c,
+        Err(_) => {
+            if common::VIOLATION_PRINTED.load(std::sync::atomic::Ordering::SeqCst) {
+                eprintln!("note: the check panicked after reporting a violation; the violation stands");
+                1
+            } else {
+                eprintln!("machinery error: the check itself panicked");
+                2
+            }
+        }
+    };
+    std::process::exit(code);
+}
+
+fn dispatch(args: &[String], tier: common::Tier) -> i32 {
+    match args[1].as_str() {
         "selftest" => match refhash::self_test() {
             Ok(n) => {
                 println!("refhash self-test: {n} vectors ok");
@@ -105,6 +123,10 @@ fn main() {
         "C12" => c12::run(&Ctx::new("C12", tier).reduced().with_filter(|k| k.contains(".image.") || k.contains(".size.") || k.starts_with("panic|"))),
         "C13" => c13::run(&Ctx::new("C13", tier)),
         "worker" => e4::worker_main(&c14::run_entry),
+        "c05-time" => {
+            c05::time_runs(&Ctx::new("C05", tier), args.get(2).and_then(|s| s.parse().ok()).unwrap_or(10));
+            0
+        }
         "C14" => c14::run(&Ctx::new("C14", tier)),
         "C17" => c17::run(&Ctx::new("C17", tier).reduced().with_filter(c17::filter())),
         "C08" => c08::run(&Ctx::new("C08", tier)),
@@ -123,6 +145,5 @@ fn main() {
             eprintln!("unknown check {other}");
             2
         }
-    };
-    std::process::exit(code);
+    }
 }
